@@ -19,7 +19,8 @@ CONSTANTS MaxOps,        \* bound on the number of operations in one handler run
 NoHdr == [xa |-> "", ct |-> "", loc |-> ""]
 
 \* ---- operation alphabet (concrete arguments chosen so that every op is distinguishable)
-Ops == { [op |-> "status",      a |-> "404",  b |-> ""],
+Ops == { [op |-> "status",      a |-> "200",  b |-> ""],   \* back to the default after another status
+         [op |-> "status",      a |-> "404",  b |-> ""],
          [op |-> "status",      a |-> "500",  b |-> ""],
          [op |-> "header",      a |-> "X-A",  b |-> "1"],
          [op |-> "header",      a |-> "X-A",  b |-> "2"],
@@ -35,7 +36,7 @@ Ops == { [op |-> "status",      a |-> "404",  b |-> ""],
          [op |-> "noContent",   a |-> "205",  b |-> ""],
          [op |-> "writeHeader", a |-> "202",  b |-> ""] }
 
-Code(s) == CASE s = "404" -> 404 [] s = "500" -> 500 [] s = "201" -> 201 [] s = "301" -> 301
+Code(s) == CASE s = "200" -> 200 [] s = "404" -> 404 [] s = "500" -> 500 [] s = "201" -> 201 [] s = "301" -> 301
              [] s = "205" -> 205 [] s = "202" -> 202 [] OTHER -> 0
 
 VARIABLES ref, impl, act
